@@ -244,6 +244,10 @@ func propMain(args []string, o RunOpts, tier string) int {
 	solverTime := 0.0
 	bySolver := map[string]int{}
 	for i, r := range results {
+		if r.Drift != "" {
+			drift = append(drift, r.Fn+": "+r.Drift)
+			fmt.Printf("CONTRACT-DRIFT: %s: %s (its site-anchored clauses are undecided for this run; the rest of the function is checked)\n", r.Fn, r.Drift)
+		}
 		if r.Error != "" {
 			if strings.HasPrefix(r.Error, "out-of-subset") {
 				outOfSubset = append(outOfSubset, r.Fn+": "+r.Error)
